@@ -23,9 +23,9 @@ import (
 
 func init() {
 	ev.Register(&ev.Check{
-		ID:    "C07",
-		Level: "exploration",
-		Rule: "roles {schema, user type (3 roots), enum rule, regex type, document (2 modes, 4 schemas)} x every public method on fresh objects and in sequence on one object, over inputs: (i) ALL strings <= 4 (thorough 5) over a 26-symbol schema alphabet; (ii) every truncation and every single-byte deletion / insertion / substitution by 12 (thorough 26) symbols at every offset of the corpus (all testdata schema/type/enum/json files <= 400 (thorough 4096) bytes + generator outputs); (iii) numerals with huge exponents in isolated, memory-capped processes; (iv) EVERY errors.Format / ErrorCode construction site found by go/parser in the current tree and EVERY row of the template table, executed. Oracle: no panic, no process death, termination, every error exposes ErrCode()+Message() (directly or via errors.As), Position() < max(1,len(source it names)), Error()/Line()/SourceSubString() do not panic. Non-trivial = distinct (role, input).",
+		ID:               "C07",
+		Level:            "exploration",
+		Rule:             "roles {schema, user type (7 usages: alias, property, item, key shortcut, allOf parent, type rule, or rule), enum rule, regex type, document (2 modes, 4 schemas)} x every public method on fresh objects and in sequence on one object, over inputs: (i) ALL strings <= 4 (thorough 5) over a 26-symbol schema alphabet; (ii) every truncation and every single-byte deletion / insertion / substitution by 12 (thorough 26) symbols at every offset of the corpus (all testdata schema/type/enum/json files <= 400 (thorough 4096) bytes + generator outputs); (v) grammar-directed product: 7 examples x 21 rule names x 46 hostile rule values x 6 annotation positions (+ 7 second rules in both orders), 140 type bodies over self/other/missing references, enum and regex bodies x 18 comment/literal tails; (iii) numerals with huge exponents in isolated, memory-capped processes; (iv) EVERY errors.Format / ErrorCode construction site found by go/parser in the current tree and EVERY row of the template table, executed. Oracle: no panic, no process death, termination, every error exposes ErrCode()+Message() (directly or via errors.As), Position() < max(1,len(source it names)), Error()/Line()/SourceSubString() do not panic. Non-trivial = distinct (role, input).",
 		Run:              run,
 		Replay:           replay,
 		QuickBudget:      85 * time.Second,
@@ -143,15 +143,16 @@ const (
 var fixedDocs = []string{`{"a":1}`, `[1,"s"]`, `1`}
 
 // methods of each role: name -> call on a fresh object built from text.
-func roleMethods(role, text string) (src sources, main string, ms []struct {
-	name string
-	f    func() error
-}) {
+type methodT struct {
+	name   string
+	f      func() error
+	schema string // content of the file "schema" for this method ("" = src["schema"])
+}
+
+func roleMethods(role, text string) (src sources, main string, ms []methodT) {
+	curSchema := ""
 	add := func(name string, f func() error) {
-		ms = append(ms, struct {
-			name string
-			f    func() error
-		}{name, f})
+		ms = append(ms, methodT{name, f, curSchema})
 	}
 	src = sources{}
 	switch role {
@@ -190,7 +191,7 @@ func roleMethods(role, text string) (src sources, main string, ms []struct {
 	case "type":
 		main = "@t"
 		src["@t"] = text
-		for _, root := range []string{"@t", "{\n  \"k\": @t\n}", "[\n  @t\n]"} {
+		for _, root := range typeRoots {
 			root := root
 			mk := func() (*jschema.Schema, error) {
 				s := jschema.New("schema", root)
@@ -200,8 +201,7 @@ func roleMethods(role, text string) (src sources, main string, ms []struct {
 				err := s.AddType("@t", jschema.New("@t", text))
 				return s, err
 			}
-			srcRoot := root
-			_ = srcRoot
+			curSchema = root
 			add("AddType in "+firstLine(root), func() error { _, err := mk(); return err })
 			add("Check in "+firstLine(root), func() error {
 				s, err := mk()
@@ -226,6 +226,7 @@ func roleMethods(role, text string) (src sources, main string, ms []struct {
 				return e
 			})
 		}
+		curSchema = ""
 		// the root schema and the document are sources too (errors may name them)
 		src["schema"] = "{\n  \"k\": @t\n}"
 		src["doc"] = `{"k":1}`
@@ -293,6 +294,7 @@ func roleMethods(role, text string) (src sources, main string, ms []struct {
 		for _, st := range []string{`1 // {min: 0}`, "{ // {additionalProperties: \"any\"}\n  \"a\": 1 // {optional: true}\n}", `"s" // {type: "any"}`, "[\n  1\n]"} {
 			st := st
 			src["schema"] = st
+			curSchema = st
 			add("Validate under "+firstLine(st), func() error { return jschema.New("schema", st).Validate(json.New("doc", text)) })
 		}
 	}
@@ -304,6 +306,9 @@ func evalInput(role, text string) []finding {
 	src, main, ms := roleMethods(role, text)
 	var out []finding
 	for _, m := range ms {
+		if m.schema != "" {
+			src["schema"] = m.schema
+		}
 		if p := call(m.f, src, main); p != nil {
 			out = append(out, finding{m.name, p})
 		}
@@ -362,6 +367,10 @@ func report(c *ev.Ctx, role, text string, f finding) {
 		fmt.Sprintf("%s %q, %s: %s", role, red, f.method, desc), caseT{role, red, f.method, f.p.class})
 }
 
+// typeRoots: the usages of the user type @t the type role is run under.
+var typeRoots = []string{"@t", "{\n  \"k\": @t\n}", "[\n  @t\n]",
+	"{\n  @t : 1\n}", "{ // {allOf: \"@t\"}\n  \"y\": 1\n}", "1 // {type: \"@t\"}", "{\n  \"k\": 1 // {or: [\"@t\", \"@u\"]}\n}"}
+
 var roles = []string{"schema", "type", "enum", "regex", "document"}
 
 const alphabet = "{}[]:,\"\\/*#@|-.01etna \n\ré"
@@ -410,6 +419,7 @@ func run(c *ev.Ctx) {
 		}
 		rec("", 0)
 	}
+	grammar(c)
 	corpusEdits(c)
 	if c.Shard == 0 {
 		sites(c)
